@@ -4,7 +4,7 @@ import RrModel.Go.UrlEscape
 /-
   restart_on_redirect on the UNCACHED path of `cachingFunc` (C18), branch for branch:
 
-    util/http.go      RedirectedURL (57-107)
+    util/http.go      RedirectedURL (57-104)
     server/server.go  urlEquals (493-508), preprocessHeaders (468-478), the prologue and the
                       uncached branch of cachingFunc (94-138) with its re-entry (120-127)
     proxy/proxy.go    GetRoutingFlavors (318-329), completeURL/destinationString (698-720),
@@ -76,18 +76,24 @@ def parseURL (raw : Bytes) : Option RUrl :=
              rawPath := if s.path = UrlEsc.escapePath p then [] else s.path,
              forceQuery := s.forceQuery, rawQuery := s.rawQuery, fragment := s.fragment }
 
-/-- `u.EscapedPath()` of a URL whose `RawPath` is still empty (http.go:103) -/
+/-- `u.EscapedPath()` of a URL whose `RawPath` is still empty (http.go:100) -/
 def escapedPathFresh (path : Bytes) : Bytes :=
   if path = b!"*" then b!"*" else UrlEsc.escapePath path
 
-/-- the path the relative branch of `RedirectedURL` builds (http.go:85-91): the request path's
-    fields without the last one, joined by `/`, and then `redir.Path` appended AS IS -/
+/-- `p[:strings.LastIndex(p, "/")+1]`: everything up to and including the last `/`
+    (`LastIndex` = -1 without one: the empty prefix) -/
+def uptoLastSlash (p : Bytes) : Bytes :=
+  match lastIndex b!"/" p with
+  | some i => p.take (i + 1)
+  | none => p.take 0
+
+/-- the path the relative branch of `RedirectedURL` builds (http.go:82-88): a non-empty request
+    path is cut behind its last `/` and `redir.Path` appended; an empty one counts as `/` -/
 def relativePath (origPath redirPath : Bytes) : Bytes :=
-  let origSplat := fieldsBy 47 origPath
-  if origSplat.length > 1 then b!"/" ++ join b!"/" origSplat.dropLast ++ redirPath
+  if origPath.length > 0 then uptoLastSlash origPath ++ redirPath
   else b!"/" ++ redirPath
 
-/-- `util.RedirectedURL(orig, requestedUrl, redir)` (http.go:57-107); of `orig` the function
+/-- `util.RedirectedURL(orig, requestedUrl, redir)` (http.go:57-104); of `orig` the function
     reads `orig.URL` and `orig.Host` -/
 def redirectedURL (origUrl : RUrl) (origHost : Bytes) (requested redir : RUrl) : RUrl :=
   if redir.scheme.length > 0 then redir
